@@ -36,7 +36,7 @@ def occ_sgm_pixel(disp, valid, d1, v1, c, r) -> "bool":
     )
 
 
-@contract("pandora.validation.interpolated_disparity.SgmInterpolation.interpolate_occlusion_sgm", props=["C14", "C04"])
+@contract("pandora.validation.interpolated_disparity.SgmInterpolation.interpolate_occlusion_sgm", props=["C14", "C04", "C09"])
 def _(disp, valid):
     types(disp="f32[:,:]", valid="u16[:,:]", result=("f32[:,:]", "u16[:,:]"))
     option(opaque=["walk"])   # only equalities between walk(...) terms are needed here, not its definition
@@ -85,7 +85,7 @@ def mis_sgm_pixel(disp, valid, d1, v1, c, r) -> "bool":
     )
 
 
-@contract("pandora.validation.interpolated_disparity.SgmInterpolation.interpolate_mismatch_sgm", props=["C14", "C04"])
+@contract("pandora.validation.interpolated_disparity.SgmInterpolation.interpolate_mismatch_sgm", props=["C14", "C04", "C09"])
 def _(disp, valid):
     types(disp="f32[:,:]", valid="u16[:,:]", result=("f32[:,:]", "u16[:,:]"))
     option(opaque=["walk"])
@@ -121,7 +121,7 @@ def mis_mc_cnn_pixel(disp, valid, d1, v1, c, r) -> "bool":
     )
 
 
-@contract("pandora.validation.interpolated_disparity.McCnnInterpolation.interpolate_mismatch_mc_cnn", props=["C14", "C04"])
+@contract("pandora.validation.interpolated_disparity.McCnnInterpolation.interpolate_mismatch_mc_cnn", props=["C14", "C04", "C09"])
 def _(disp, valid):
     types(disp="f32[:,:]", valid="u16[:,:]", result=("f32[:,:]", "u16[:,:]"))
     requires("shapes", valid.shape[0] == disp.shape[0], valid.shape[1] == disp.shape[1])
